@@ -77,7 +77,7 @@ class FuncTrace:
 
 
 def symbolic_job(params, body, replay, *, timeout_ms=120000, budget_s=1500, max_paths=400000,
-                 seed=0, validate=2, expect_reachable=True, in_known_class=None):
+                 seed=0, validate=2, expect_reachable=True, in_known_class=None, split=None):
     """Explore ``body`` symbolically; replay counterexamples / sampled path models with
     ``replay(params, inputs) -> (holds: bool, detail: str)`` on the real code (concrete)."""
     from . import core
@@ -99,7 +99,7 @@ def symbolic_job(params, body, replay, *, timeout_ms=120000, budget_s=1500, max_
     c = None
     try:
         c = core.explore(traced_body, timeout_ms=timeout_ms, seed=seed, max_paths=max_paths,
-                         budget_s=budget_s)
+                         budget_s=budget_s, split=split)
     except core.Inconclusive as e:
         out['status'] = 'inconclusive'
         out['message'] = f'{e}'
@@ -120,7 +120,7 @@ def symbolic_job(params, body, replay, *, timeout_ms=120000, budget_s=1500, max_
         out['functions'] = tracer.summary()
         out['notes'] = c.notes
     if out['status'] == 'ok' and c is not None:
-        if expect_reachable and c.stats['paths'] == 0 and not c.cex:
+        if expect_reachable and split is None and c.stats['paths'] == 0 and not c.cex:
             out['status'] = 'inconclusive'
             out['message'] = 'vacuous: no feasible path reached the end of the harness'
         for cx in c.cex:
